@@ -170,10 +170,30 @@ def run_one(scn, params, bounds, prefix, concrete=None, cov=False, want_log=Fals
         return scn(ctx)
 
     _reset_library_globals()
+    # exceptions that the standard library swallows (and logs) when a done-callback raises: recorded when
+    # they were raised by library code (innermost frame outside the standard library is a library file)
+    import concurrent.futures._base as _cfb
+    cb_errors = []
+    _orig_exception = _cfb.LOGGER.exception
+
+    def _record(msg, *a, **kw):
+        et, ev_, tb = sys.exc_info()
+        if ev_ is not None and isinstance(ev_, Exception):
+            inner = None
+            t = tb
+            while t is not None:
+                fn_ = t.tb_frame.f_code.co_filename
+                if "/lib/python3" not in fn_ and "<frozen" not in fn_:
+                    inner = (fn_, t.tb_lineno)
+                t = t.tb_next
+            if inner is not None and inner[0].startswith(sched._LIB_PREFIX):
+                cb_errors.append("%s: %s at %s:%d" % (type(ev_).__name__, str(ev_)[:120], inner[0][len(sched._LIB_PREFIX):], inner[1]))
+    _cfb.LOGGER.exception = _record
     try:
         ret, exc = sch.run(body)
     finally:
         sym.set_pm(None)
+        _cfb.LOGGER.exception = _orig_exception
     if exc is not None:
         if isinstance(exc, Divergence):
             r.diverged = True
@@ -196,6 +216,8 @@ def run_one(scn, params, bounds, prefix, concrete=None, cov=False, want_log=Fals
             ctx.results.append(("no-deadlock", "proved" if sch.deadlock is None else "refuted",
                                 pm.model_values(None) if sch.deadlock is not None else None, sch.deadlock))
         if ctx.implicit_deaths:
+            ctx.results.append(("no-library-exception-in-callback", "proved" if not cb_errors else "refuted",
+                                pm.model_values(None) if cb_errors else None, "; ".join(cb_errors[:3]) or None))
             ctx.results.append(("no-thread-death", "proved" if not sch.deaths else "refuted",
                                 pm.model_values(None) if sch.deaths else None,
                                 "; ".join("%s: %s" % (d[0], d[1]) for d in sch.deaths) or None))
